@@ -55,14 +55,20 @@ TWIN_OPS = [({'op': 'server_body', 'N': 8, 'content_type': 'application/json', '
 
 OPT_BIN_OPS = [({'op': 'server_body_opt_bin', 'content_type': None, 'chunk': ''}, ('none', 'err')), ({'op': 'server_body_opt_bin', 'content_type': 'application/json', 'chunk': '37'}, ('some:7', 'err')),
                ({'op': 'server_body_opt_bin', 'content_type': 'application/octet-stream', 'chunk': '37'}, ('err', 'ok')), ({'op': 'server_body_opt_bin', 'content_type': 'text/plain', 'chunk': '37'}, ('err', 'err')),
-               ({'op': 'server_body_opt_bin', 'content_type': 'application/json', 'chunk': '3778'}, ('err', 'err'))]
+               ({'op': 'server_body_opt_bin', 'content_type': 'application/json', 'chunk': '3778'}, ('err', 'err')),
+               # a Content-Type announces a body: no stream item at all, or only empty chunks, is a truncated document
+               ({'op': 'server_body_opt_bin', 'content_type': 'application/json', 'chunks': []}, ('err', 'err')),
+               ({'op': 'server_body_opt_bin', 'content_type': 'application/json', 'chunks': ['']}, ('err', 'err')),
+               ({'op': 'server_body_opt_bin', 'content_type': 'application/x-jackson-smile', 'chunks': []}, ('err', 'err')),
+               ({'op': 'server_body_opt_bin', 'content_type': 'application/json', 'chunks': ['', '37', '']}, ('some:7', 'err')),
+               ({'op': 'server_body_opt_bin', 'content_type': None, 'chunks': ['37']}, ('none', 'err'))]
 
 
 def battery_opt_bin():
     out = []
     for (o, w), r in zip(OPT_BIN_OPS, replay([o for o, _ in OPT_BIN_OPS])):
-        if (r.get('optional'), r.get('binary')) != w:
-            out.append(f'{o}: native (optional, binary) = ({r.get("optional")}, {r.get("binary")}), expected {w}')
+        if (r.get('optional'), r.get('binary')) != w or r.get('optional_async') != w[0]:
+            out.append(f'{o}: native (optional, optional async, binary) = ({r.get("optional")}, {r.get("optional_async")}, {r.get("binary")}), expected {(w[0], w[0], w[1])}')
     return out
 
 
@@ -151,7 +157,8 @@ def run(rep, tier):
                 if not seen_ok:
                     rep.inconc(f'vacuity: StdRequestDeserializer {flavour} never accepts')
                 finish_engine(rep, it)
-    run_optional_and_binary(rep, prog, mk, NCH, L, doc)
+    with rep.part('optional and binary deserializers'):
+        run_optional_and_binary(rep, prog, mk, NCH, L, doc)
     # reachability twins replayed natively
     for fail in battery() + battery_opt_bin():
         rep.violation('C06:native-twin', f'native twin: {fail}', {'native': fail})
